@@ -966,4 +966,223 @@ example : sR3.heap.get 3 = .num (F64.ofNat 7) := by with_unfolding_all decide +k
 
 end examples
 
+/-! # Part 3 (added after the statement review: REVIEW.md, C07)
+
+* whole-`for` theorems for `break` and for propagation in iteration `k+1` (`for_break_at`,
+  `for_propagates_at`): the analogues of `while_break_at` / `while_propagates_at`, which the
+  file lacked — the clause "the for post-expression runs after each completed or continued
+  iteration" (and NOT after `break`) for the whole statement;
+* nested loops (`nested_loop_round`): a body in which every `break` / `continue` sits inside a
+  nested loop never stops or continues the OUTER loop: the outer round goes on exactly when the
+  body completes;
+* concrete `Rounds 3` instances for `while` and `for` (the hypotheses of `while_k_iterations`,
+  `for_k_iterations`, `for_break_at` are satisfiable), with the theorems applied to them. -/
+
+section review
+open Jqawk.Spec
+
+/-- **`break` in iteration k+1 of a `for`** ends the statement normally in the very state `break`
+    was raised in: after `init; (c; body; post)^k; c` the post-expression is NOT run again -/
+theorem for_break_at (m k : Nat) (pre c post : Expr) (body : Stmt) (s s1 sk s2 s' : St)
+    (x cell : CellId) (hpre : evalExpr prog m pre s = .ok x s1)
+    (hk : Rounds (forRoundAt prog m c post body) k s1 sk)
+    (hc : evalExpr prog m c sk = .ok cell s2) (ht : (s2.heap.get cell).truthy = true)
+    (hb : evalStmt prog m body s2 = .err (.sig .brk) s') :
+    Runs prog (.for_ pre c post body) s (.ok () s') := by
+  refine for_complete prog m pre c post body s _ (.inl ⟨s1, ?_, ?_⟩)
+  · simp only [effectOnly, bind, EM.bind, hpre, pure, EM.pure]
+  · exact (repeats_iff_rounds _ _ _).mpr
+      ⟨k, sk, hk, .inl ⟨s', for_break_skips_post prog m c post body sk s2 s' cell hc ht hb, rfl⟩⟩
+
+/-- **propagation from iteration k+1 of a `for`**: `return`, `next`, `exit` or a runtime error
+    in the body ends the statement with exactly that outcome and state (no post-expression) -/
+theorem for_propagates_at (m k : Nat) (pre c post : Expr) (body : Stmt) (s s1 sk s2 s' : St)
+    (x cell : CellId) (e : Err) (hpre : evalExpr prog m pre s = .ok x s1)
+    (hk : Rounds (forRoundAt prog m c post body) k s1 sk)
+    (hc : evalExpr prog m c sk = .ok cell s2) (ht : (s2.heap.get cell).truthy = true)
+    (hb : evalStmt prog m body s2 = .err e s') (he : e ≠ .sig .brk ∧ e ≠ .sig .cont) :
+    Runs prog (.for_ pre c post body) s (.err e s') := by
+  refine for_complete prog m pre c post body s _ (.inl ⟨s1, ?_, ?_⟩)
+  · simp only [effectOnly, bind, EM.bind, hpre, pure, EM.pure]
+  · refine (repeats_iff_rounds _ _ _).mpr ⟨k, sk, hk, .inr ⟨e, s', ?_, rfl⟩⟩
+    exact (forRound_err_iff _ _ _ _ _ _).mpr
+      (.inr (.inl ⟨s2, (truthyOf_ok_iff _ _ _ _).mpr ⟨cell, hc, ht⟩, hb, he.1, he.2⟩))
+
+/-- **nested loops: `break` / `continue` of an inner loop leave the outer loop alone.**  Let the
+    body of `while (c) body` contain `break` / `continue` only inside nested loops (`canS`: the
+    syntactic check through blocks, if/else and match bodies that stops at loop bodies — e.g. the
+    body is itself a loop, or a block of loops and break-free statements).  Then in a round whose
+    test holds, the outer loop is never ended by a `break` (the round never answers "stop"), it
+    goes on exactly when the body completes, and it fails exactly when the body fails. -/
+theorem nested_loop_round (hfs : prog.FnScoped) (m : Nat) (c : Expr) (body : Stmt) (s s1 : St)
+    (cell : CellId) (hc : evalExpr prog m c s = .ok cell s1) (ht : (s1.heap.get cell).truthy = true)
+    (hb : canS .brk body = false) (hcn : canS .cont body = false) :
+    (∀ s2, whileRoundAt prog m c body s ≠ .ok false s2) ∧
+    (∀ s2, whileRoundAt prog m c body s = .ok true s2 ↔ evalStmt prog m body s1 = .ok () s2) ∧
+    (∀ e s2, whileRoundAt prog m c body s = .err e s2 ↔ evalStmt prog m body s1 = .err e s2) := by
+  have hcond : truthyOf (evalExpr prog m c) s = .ok true s1 :=
+    (truthyOf_ok_iff _ _ _ _).mpr ⟨cell, hc, ht⟩
+  have nobrk := fun s2 => no_free_break_no_break prog hfs .brk (.inl rfl) m body hb s1 s2
+  have nocont := fun s2 => no_free_break_no_break prog hfs .cont (.inr rfl) m body hcn s1 s2
+  refine ⟨fun s2 h => ?_, fun s2 => ?_, fun e s2 => ?_⟩
+  · rcases (whileRound_false_iff _ _ _ _).mp h with h | ⟨s1', h1, h2⟩
+    · rw [hcond] at h; cases h
+    · rw [hcond] at h1; cases h1; exact nobrk _ h2
+  · unfold whileRoundAt
+    rw [whileRound_true_iff]
+    constructor
+    · rintro ⟨s1', h1, h2 | h2⟩
+      · rw [hcond] at h1; cases h1; exact h2
+      · rw [hcond] at h1; cases h1; exact absurd h2 (nocont _)
+    · intro h; exact ⟨s1, hcond, .inl h⟩
+  · unfold whileRoundAt
+    rw [whileRound_err_iff]
+    constructor
+    · rintro (h | ⟨s1', h1, h2, -, -⟩)
+      · rw [hcond] at h; cases h
+      · rw [hcond] at h1; cases h1; exact h2
+    · intro h
+      refine .inr ⟨s1, hcond, h, ?_, ?_⟩
+      · rintro rfl; exact nobrk _ h
+      · rintro rfl; exact nocont _ h
+
+/-! ### concrete `Rounds 3` instances -/
+
+def goesOn : Res Bool → Bool
+  | .ok true _ => true
+  | _ => false
+
+theorem eq_of_goesOn {r : Res Bool} (h : goesOn r = true) : r = .ok true (stAfter r) := by
+  cases r with
+  | ok b s => cases b <;> first | rfl | cases h
+  | err e s => cases h
+  | oof => cases h
+
+def cellOf : Res CellId → CellId
+  | .ok c _ => c
+  | _ => 0
+
+def isOk {α : Type} : Res α → Bool
+  | .ok _ _ => true
+  | _ => false
+
+theorem eq_of_isOk {r : Res CellId} (h : isOk r = true) : r = .ok (cellOf r) (stAfter r) := by
+  cases r <;> first | rfl | cases h
+
+/-- the round of `while (i < 3) { print i; i++ }` (fuel 20 inside the round) and the states after
+    one, two, three rounds from the state in which the statement starts (`i = 0`) -/
+def whileR : EM Bool := whileRoundAt (demoProg whileSrc) 20 whileCond whileBodyS
+def w1 : St := stAfter (whileR whileStart)
+def w2 : St := stAfter (whileR w1)
+def w3 : St := stAfter (whileR w2)
+def wEnd : St := stAfter (evalExpr (demoProg whileSrc) 20 whileCond w3)
+def wCell : CellId := cellOf (evalExpr (demoProg whileSrc) 20 whileCond w3)
+
+/-- a concrete `Rounds 3` for `while` -/
+theorem while_rounds_3 : Rounds (whileRoundAt (demoProg whileSrc) 20 whileCond whileBodyS) 3 whileStart w3 :=
+  .succ (s1 := w1) (eq_of_goesOn (r := whileR whileStart) (by decide +kernel))
+    (.succ (s1 := w2) (eq_of_goesOn (r := whileR w1) (by decide +kernel))
+      (.succ (s1 := w3) (eq_of_goesOn (r := whileR w2) (by decide +kernel)) .zero))
+
+/-- `while_k_iterations` applied to it: the statement ends normally at fuel 30 in the state after
+    the fourth test, having printed 0, 1, 2 -/
+example : evalStmt (demoProg whileSrc) 30 (.while_ whileCond whileBodyS) whileStart = .ok () wEnd ∧
+    wEnd.output = b!"0\n1\n2\n" :=
+  ⟨while_k_iterations (demoProg whileSrc) 20 3 whileCond whileBodyS whileStart w3 wEnd wCell
+    while_rounds_3 (eq_of_isOk (by decide +kernel)) (by decide +kernel) 30 (by omega),
+   by decide +kernel⟩
+
+/-- `for (i = 0; i < 3; i++) { if (i == 1) continue; print i }`: three rounds (the second one ends
+    with `continue` and still runs `i++`), then the test fails -/
+def for3Src : Bytes := b!"BEGIN { for (i = 0; i < 3; i++) { if (i == 1) continue; print i } }"
+
+def forPre (src : Bytes) : Expr :=
+  match firstStmt (demoBody src) with
+  | .for_ pre _ _ _ => pre
+  | _ => .lit Token.zero
+def forCond (src : Bytes) : Expr :=
+  match firstStmt (demoBody src) with
+  | .for_ _ c _ _ => c
+  | _ => .lit Token.zero
+def forPost (src : Bytes) : Expr :=
+  match firstStmt (demoBody src) with
+  | .for_ _ _ post _ => post
+  | _ => .lit Token.zero
+def forBodyS (src : Bytes) : Stmt :=
+  match firstStmt (demoBody src) with
+  | .for_ _ _ _ b => b
+  | st => st
+
+def forR (src : Bytes) : EM Bool :=
+  forRoundAt (demoProg src) 20 (forCond src) (forPost src) (forBodyS src)
+def f0 (src : Bytes) : St := stAfter (evalExpr (demoProg src) 20 (forPre src) (demoStart src))
+def f1 (src : Bytes) : St := stAfter (forR src (f0 src))
+def f2 (src : Bytes) : St := stAfter (forR src (f1 src))
+def f3 (src : Bytes) : St := stAfter (forR src (f2 src))
+/-- the state after the fourth test -/
+def fT (src : Bytes) : St := stAfter (evalExpr (demoProg src) 20 (forCond src) (f3 src))
+def fCell (src : Bytes) : CellId := cellOf (evalExpr (demoProg src) 20 (forCond src) (f3 src))
+
+/-- a concrete `Rounds 3` for `for` (with a `continue` in the second round) -/
+theorem for_rounds_3 : Rounds (forRoundAt (demoProg for3Src) 20 (forCond for3Src) (forPost for3Src)
+    (forBodyS for3Src)) 3 (f0 for3Src) (f3 for3Src) :=
+  .succ (s1 := f1 for3Src) (eq_of_goesOn (r := forR for3Src (f0 for3Src)) (by decide +kernel))
+    (.succ (s1 := f2 for3Src) (eq_of_goesOn (r := forR for3Src (f1 for3Src)) (by decide +kernel))
+      (.succ (s1 := f3 for3Src) (eq_of_goesOn (r := forR for3Src (f2 for3Src)) (by decide +kernel)) .zero))
+
+/-- `for_k_iterations` applied to it -/
+example : Runs (demoProg for3Src) (.for_ (forPre for3Src) (forCond for3Src) (forPost for3Src) (forBodyS for3Src))
+      (demoStart for3Src) (.ok () (fT for3Src)) ∧
+    (fT for3Src).output = b!"0\n2\n" ∧
+    (match firstStmt (demoBody for3Src) with | .for_ .. => true | _ => false) = true :=
+  ⟨for_k_iterations (demoProg for3Src) 20 3 _ _ _ _ (demoStart for3Src) (f0 for3Src) (f3 for3Src) (fT for3Src)
+    (cellOf (evalExpr (demoProg for3Src) 20 (forPre for3Src) (demoStart for3Src))) (fCell for3Src)
+    (eq_of_isOk (by decide +kernel)) for_rounds_3 (eq_of_isOk (by decide +kernel)) (by decide +kernel),
+   by decide +kernel, by decide +kernel⟩
+
+/-- `forSrc` = `for (i = 0; i < 5; i++) { if (i == 1) continue; if (i == 3) break; print i }`:
+    three rounds go on, the fourth ends with `break` -/
+theorem for_rounds_3_break : Rounds (forRoundAt (demoProg forSrc) 20 (forCond forSrc) (forPost forSrc)
+    (forBodyS forSrc)) 3 (f0 forSrc) (f3 forSrc) :=
+  .succ (s1 := f1 forSrc) (eq_of_goesOn (r := forR forSrc (f0 forSrc)) (by decide +kernel))
+    (.succ (s1 := f2 forSrc) (eq_of_goesOn (r := forR forSrc (f1 forSrc)) (by decide +kernel))
+      (.succ (s1 := f3 forSrc) (eq_of_goesOn (r := forR forSrc (f2 forSrc)) (by decide +kernel)) .zero))
+
+def isBrk : Res Unit → Bool
+  | .err (.sig .brk) _ => true
+  | _ => false
+
+theorem eq_of_isBrk {r : Res Unit} (h : isBrk r = true) : r = .err (.sig .brk) (stAfter r) := by
+  cases r with
+  | ok a s => cases h
+  | oof => cases h
+  | err e s =>
+    cases e with
+    | sig g => cases g <;> first | rfl | cases h
+    | _ => cases h
+
+/-- `for_break_at` applied: the statement ends normally in the state `break` was raised in; `i` is
+    still 3 there (the post-expression did not run after `break`) and 0, 2 were printed -/
+example : Runs (demoProg forSrc) (.for_ (forPre forSrc) (forCond forSrc) (forPost forSrc) (forBodyS forSrc))
+      (demoStart forSrc)
+      (.ok () (stAfter (evalStmt (demoProg forSrc) 20 (forBodyS forSrc) (fT forSrc)))) ∧
+    (stAfter (evalStmt (demoProg forSrc) 20 (forBodyS forSrc) (fT forSrc))).output = b!"0\n2\n" :=
+  ⟨for_break_at (demoProg forSrc) 20 3 _ _ _ _ (demoStart forSrc) (f0 forSrc) (f3 forSrc) (fT forSrc) _
+    (cellOf (evalExpr (demoProg forSrc) 20 (forPre forSrc) (demoStart forSrc))) (fCell forSrc)
+    (eq_of_isOk (by decide +kernel)) for_rounds_3_break (eq_of_isOk (by decide +kernel)) (by decide +kernel)
+    (eq_of_isBrk (by decide +kernel)),
+   by decide +kernel⟩
+
+/-- `nested_loop_round`: the hypotheses hold for the outer loop of
+    `while (i < 2) { while (true) { j++; if (j > 1) break }; i++ }` — its body has no free
+    `break` / `continue` although the inner loop breaks — and the program is `FnScoped` -/
+def nestSrc : Bytes := b!"BEGIN { i = 0; j = 0; while (i < 2) { while (true) { j++; if (j > 1) break } i++ } print i, j }"
+example : (match demoBody nestSrc with
+      | .block _ (_ :: _ :: .while_ _ b :: _) => canS .brk b || canS .cont b
+      | _ => true) = false ∧
+    runOut nestSrc = some b!"2 3\n" := by decide +kernel
+example : (demoProg nestSrc).FnScoped := (wellScoped_of_B _ (by decide +kernel)).1
+
+end review
+
 end Jqawk.C07
